@@ -44,3 +44,18 @@ package msc
 //@   trusted   -- storage lookup in the canonical index; read-only
 //@   modifies nothing
 //@   ensures r1 == nil ==> r0 != nil
+
+// ---- C29: a header is stored only with a stored parent and after verifyHeader accepted it ---------------------
+//@ func (*Handler).SyncBlockHeader
+//@   property C29
+//@   mode abstract
+//@   requires native != nil
+//@   modifies *
+//@   ghost var parentOK bool = false
+//@   ghost var verified bool = false
+//@   set before "err := json.Unmarshal(v, &header)" : parentOK := false
+//@   set before "err := json.Unmarshal(v, &header)" : verified := false
+//@   set after "if !parentExist" : parentOK := true
+//@   set after "err = verifyHeader(native, &header, ctx)" : verified := err == nil
+//@   callsite[c29-parent-lookup] isHeaderExist#2 requires arg1 == header.ParentHash
+//@   callsite[c29-stored-only-valid] addHeader#1 requires parentOK && verified
